@@ -68,6 +68,7 @@ def check(ctx):
     m1.holds("C12_A", "C12_quick.cfg")
     if not ctx.quick:
         m1.holds("C12_B", "C12_quick.cfg", {"C12_A": "C12_B"}, timeout=3000)
+        m1.holds("C12_A, 5 inputs", "C12_quick.cfg", {"MaxEv = 3": "MaxEv = 5"}, timeout=3000)
     m1.holds("C12_S (two instances of one service)", "C12_quick.cfg", {"C12_A": "C12_S", "C12_Inputs": "C12_SInputs"}, timeout=3000)
     m1.caught("SwD5", "C12_quick.cfg")
     traces = anngen.run(ctx.seed, ctx.pick(360, 6000), ctx.pick(8, 12), INSTS, list("ABCDEF"), tag="c12")
